@@ -123,7 +123,8 @@ CHECKS = {
         'block boundary (C14_cut_anywhere, from the varint prefix law); replacing any block marker by any other '
         '16 bytes delivers only the earlier blocks and then an error (C14_marker_corruption); the header the writer '
         'emits, cut at ANY offset - in the magic, anywhere in the metadata map, in the marker - cannot be opened, for every '
-        'metadata map (C14_header_cut, from the strict-prefix theorem of the datum decoder). Check: library-'
+        'metadata map (C14_header_cut, from the strict-prefix theorem of the datum decoder); the Reader as an iterator hands out '
+        'those values, then the error once, then None for every later call (C14_iterator_latches). Check: library-'
         'written files (all six codecs) damaged at EVERY byte offset and at every marker/magic byte, compared '
         'with the expected prefix computed by an independent python parser, and with the model for the null codec; the reader is '
         'iterated to exhaustion, and any value delivered AFTER an error item is a violation (the reader must stop).',
